@@ -190,6 +190,21 @@ def _weights(chk):
                 ok = True
     chk.check(ok, "WIRE.weights.iter_kwargs", fa, sc_calls[0], construct="scaler.fit_transform(iter_kwargs={'weights': process_parameter(weights)})",
               why="the per-item weights list is not handed to the scaler under the key 'weights'")
+    # ... as the user gave them: the weights meet the data by LABEL (xarray arithmetic in the scaler); giving them other
+    # coordinates, an index or raw values on the way pairs every weight with the wrong feature whenever the weights are
+    # stored in another order than the data
+    RELABEL = {"assign_coords", "reindex", "reindex_like", "reset_index", "set_index", "drop_vars", "reset_coords", "isel", "sel", "swap_dims", "rename",
+               "transpose", "sortby", "values", "data", "to_numpy", "interp", "interp_like", "broadcast_like"}
+    if ik is not None:
+        touched = []
+        for p in ff.paths(ik, spine_only=False):
+            if p.atom.kind == "param" and p.atom.name == "weights":
+                for o in p.ops:
+                    if (o.kind == "method" and o.name in RELABEL) or (o.kind == "attr" and o.name in ("values", "data")):
+                        touched.append(o)
+        chk.check(not touched, "WIRE.weights.untouched", fa, touched[0].node if touched else sc_calls[0], construct="the user's weights reach the scaler with their own labels",
+                  why=f"the weights pass through .{touched[0].name if touched else ''}() before they are applied: they are re-labelled / re-ordered by position, "
+                      "so weights stored in another order than the data (same labels) act on the wrong features")
     # other stages must not receive the weights
     for c in calls_in(fa):
         if isinstance(c.func, ast.Attribute) and c.func.attr in ("fit_transform", "fit") and is_self_attr(c.func.value) and c.func.value.attr != "scaler":
